@@ -131,6 +131,9 @@ package bt
 //@   requires (forall ((k Int)) (=> (and (<= 0 k) (< k (len (. tx Outputs)))) (not (nil? (at (. tx Outputs) k)))))
 //@   loop 0 invariant (and (not (nil? clone)) (fresh clone) (= (len (. clone Inputs)) (+ rangeindex 1)) (or (nil? (. clone Inputs)) (fresh (. clone Inputs))))
 //@   loop 0 invariant (forall ((k Int)) (=> (and (<= 0 k) (< k (len (. clone Inputs)))) (and (not (nil? (at (. clone Inputs) k))) (fresh (at (. clone Inputs) k)))))
+//@   loop 0 invariant (forall ((k Int)) (=> (and (<= 0 k) (< k (len (. clone Inputs)))) (allocated (at (. clone Inputs) k))))
+//@   loop 1 invariant (forall ((k Int)) (=> (and (<= 0 k) (< k (len (. clone Inputs)))) (allocated (at (. clone Inputs) k))))
+//@   loop 1 invariant (forall ((k Int)) (=> (and (<= 0 k) (< k (len (. clone Outputs)))) (allocated (at (. clone Outputs) k))))
 //@   loop 0 invariant (forall ((k Int)) (=> (and (<= 0 k) (< k (len (. clone Inputs)))) (and (= (. (at (. clone Inputs) k) PreviousTxScript) (old (. (at (. tx Inputs) k) PreviousTxScript))) (= (. (at (. clone Inputs) k) PreviousTxSatoshis) (old (. (at (. tx Inputs) k) PreviousTxSatoshis))) (not (nil? (. (at (. clone Inputs) k) UnlockingScript))))))
 //@   loop 1 invariant (forall ((k Int)) (=> (and (<= 0 k) (< k (len (. clone Inputs)))) (and (= (. (at (. clone Inputs) k) PreviousTxScript) (old (. (at (. tx Inputs) k) PreviousTxScript))) (= (. (at (. clone Inputs) k) PreviousTxSatoshis) (old (. (at (. tx Inputs) k) PreviousTxSatoshis))) (not (nil? (. (at (. clone Inputs) k) UnlockingScript))))))
 //@   loop 1 invariant (forall ((k Int)) (=> (and (<= 0 k) (< k (len (. clone Outputs)))) (= (. (at (. clone Outputs) k) Satoshis) (old (. (at (. tx Outputs) k) Satoshis)))))
